@@ -1,4 +1,5 @@
 import TextxVerif.Proofs.TxEmit
+import TextxVerif.Proofs.TxCompile
 import TextxVerif.Proofs.TxBuild
 import TextxVerif.Tx.Quirk
 import TextxVerif.Proofs.ArpMono2
@@ -77,6 +78,50 @@ theorem C01_expr_accepts_iff (e : Expr) (hfrag : frag e = true) (hdoc : docExpr 
   rw [hp] at this hn
   cases r <;> cases hs : Sem.pExpr x none m c e s.pos <;> rw [hs] at this <;> simp_all
 
+/-- **The blocks of the proved fragment are what `Tx.compile` emits.**  For every grammar that compiles,
+every rule `r` of it and every expression `e` that is a proper sub-expression of `r`'s body (`Sub`, at any
+depth) — or the body itself when `visit_textx_rule` wraps it into a new root `Sequence` — the table of the
+compiled parser model contains the node block `Tx.emit` lays out for `e`, unchanged, at the index the block
+was numbered for.  (Partial: the root node of a promoted rule body carries the rule's name and parameters
+and is therefore not an `emit` block; the `Model := top EOF` wrapper and the rule roots are not reached.) -/
+theorem C01_compile_rule_partial (g : Gram) (c : Compiled) (hc : compile g = .ok c) (r : Rule) (hr : r ∈ g.rules)
+    (e : Expr) (he : InRule e r) (input : Array Char) (toks : Array (Array (Option Nat))) :
+    ∃ (pre post : List CNode) (rootOf : String → Nat),
+      (c.grammar input toks).nodes = table (pre ++ emit rootOf e pre.length ++ post) := by
+  obtain ⟨rootOf, tail, _, _, hn, _⟩ := compile_spec hc
+  obtain ⟨p, q, hl, _⟩ := emitRules_inside rootOf he g.rules hr baseNodes.length
+  refine ⟨baseNodes ++ p, q ++ tail, rootOf, ?_⟩
+  simp only [Compiled.grammar, hn, table, hl, List.length_append, List.append_assoc, List.map_toArray]
+
+/-- the shape suggested by the reviewer: a member of a rule body that is a sequence -/
+theorem C01_compile_seq_child (g : Gram) (c : Compiled) (hc : compile g = .ok c) (r : Rule) (hr : r ∈ g.rules)
+    (xs : List Expr) (sup : Bool) (hb : r.body = .seq xs sup) (e : Expr) (hx : e ∈ xs)
+    (input : Array Char) (toks : Array (Array (Option Nat))) :
+    ∃ (pre post : List CNode) (rootOf : String → Nat),
+      (c.grammar input toks).nodes = table (pre ++ emit rootOf e pre.length ++ post) :=
+  C01_compile_rule_partial g c hc r hr e (Or.inl (hb ▸ Sub.seq hx)) input toks
+
+/-- **C01 on the compiled parser model, rule-free fragment.**  `g`: any grammar that compiles and has no
+`Comment` rule; `e`: any expression of the proved fragment (`frag`, `docExpr`) standing inside a rule of `g`
+(`InRule`).  Then the compiled parser model has a node `id` at which the Arpeggio mirror, run on the *table
+`Tx.compile` produced*, agrees with the documented semantics of `e` — for every text and token table without
+empty matches (`x`), every whitespace context, parser state and fuel: same acceptance, same end position,
+same matched tokens. -/
+theorem C01_compiled_expr_partial (g : Gram) (c : Compiled) (hc : compile g = .ok c) (hcm : g.find? "Comment" = none)
+    (r : Rule) (hr : r ∈ g.rules) (e : Expr) (he : InRule e r) (hfrag : frag e = true) (hdoc : docExpr nf ff e = true)
+    (x : Sem.Env) (hne : ∀ t p, x.tokLen t p ≠ some 0) :
+    ∃ id : Nat, ∀ (cx : Sem.Ctx), cx.eol = false → ∀ (s : PState), Inv cx s → ∀ (n m : Nat),
+      match parse (c.grammar x.input x.toks) n id s, Sem.pExpr x none m cx e s.pos with
+      | (.fuel, _), _ => True
+      | _, .fuel => True
+      | (.ok v, s'), .ok p items => s'.pos = p ∧ leaves (c.grammar x.input x.toks).nodes v = items.map key
+      | (.nomatch, _), .fail => True
+      | _, _ => False := by
+  obtain ⟨pre, post, rootOf, hg⟩ := C01_compile_rule_partial g c hc r hr e he x.input x.toks
+  obtain ⟨_, _, _, _, _, hcom, _⟩ := compile_spec hc
+  refine ⟨pre.length, fun cx hcx s hi n m => ?_⟩
+  exact C01_expr_partial e hfrag hdoc rootOf pre post _ hg x ⟨rfl, hcom hcm, rfl, rfl, hne⟩ cx hcx s hi n m
+
 /-- **Fuel independence of the verdict** (from `Peg.parse_le`): the answer of the mirror does not
 depend on the fuel once it is sufficient, so "the result of the compiled parser" is well defined. -/
 theorem C01_verdict_fuel_independent (g : Grammar) (id : Nat) (s : PState) (n m : Nat) (r : Res) (t : PState)
@@ -143,6 +188,22 @@ example : (match Sem.pExpr { g := { rules := [] }, cfg := {}, input := exInput, 
     none 40 { skipws := true, ws := [' '] } exE 0 with | .ok p items => (p, items.length) | _ => (0, 0)) = (8, 4) := by
   decide +kernel
 
+/-- `Model: ('a' 'b' | 'c')+ 'd'? ;` — the rule body is `exE`; its first member is a sub-expression in the fragment -/
+def exRule : Rule := { name := "Model", body := exE }
+def exGram : Gram := { rules := [exRule] }
+def exSub : Expr :=
+  .rep .plus (.alt [.seq [.str 0 "a" false, .str 1 "b" false] false, .str 2 "c" false] false) none false false
+
+/-- the hypotheses of `C01_compile_rule_partial` / `C01_compiled_expr_partial` are satisfiable -/
+example : (match compile exGram with | .ok _ => true | .error _ => false) = true := by decide +kernel
+example : exGram.find? "Comment" = none := by decide
+example : exRule ∈ exGram.rules := List.mem_cons_self ..
+example : InRule exSub exRule := Or.inl (Sub.seq (List.mem_cons_self ..))
+example : frag exSub = true ∧ docExpr nf ff exSub = true := by decide
+/-- a wrapped body (lone assignment): the body itself is an `emit` block -/
+example : InRule (.asgn "a" .plain (.str 0 "x" false) none false false)
+    { name := "R", body := .asgn "a" .plain (.str 0 "x" false) none false false } := Or.inr ⟨rfl, rfl, rfl⟩
+
 /-- rendering of a model value that ignores object creation numbers (fuel-bounded) -/
 def render : Nat → Value → String
   | 0, _ => "…"
@@ -180,6 +241,28 @@ example : BuildSim.KidsItems exB exKids exItems :=
 example : (match processKids exB 20 exKids 0 [("a", .prim (.str "")), ("b", .list [])] {} with
     | .ok (attrs, _) => render 5 (.obj 0 "M" none attrs)
     | .error _ => "error") = "M{a=xs,b=[ys,ys]}" := by decide +kernel
+
+/-! ## the pinned separator test (by rule name) — negation witness
+
+`Model: a+=sep; sep: /\\w+/;` on `x y`: the two children of the `__asgn_oneormore` node were made by the rule
+called `sep`; the assignment has no separator modifier.  The code (and `processList`) keeps both; the pinned
+test `n.rule_name != "sep"` drops both (C02 defect 4, fixed in `e1df8a1`). -/
+
+def exSepCtx : BCtx :=
+  { c := { nodes := #[{ node := { kind := .plus, kids := [1], root := true, rule := "__asgn_oneormore" }, attr := "a" },
+                      { node := { kind := .re, tok := 6, root := true, rule := "sep" }, text := "\\w+" }],
+           top := 0, comments := none, classes := [], multSensitive := false },
+    cfg := {}, input := "x y".toList.toArray, groups := #[], g1 := #[] }
+
+def exSepKids : List Val := [.term 1 0 1, .term 1 2 1]
+
+theorem C01_sep_by_name_pinned_false :
+    (exSepKids.filter fun k => !(valRule exSepCtx k == "sep")).length = 0 ∧
+    (exSepKids.filter fun k => !isSepKid none k).length = 2 ∧
+    (match processList exSepCtx 10 exSepKids none 0 "a" [("a", .list [])] {} with
+      | .ok (attrs, _) => render 5 (.obj 0 "M" none attrs)
+      | .error _ => "error") = "M{a=[xs,ys]}" := by
+  refine ⟨by decide, by decide, by decide +kernel⟩
 
 /-! ## the full statement and why it is false -/
 
